@@ -470,6 +470,9 @@ class TermCanvas(Canvas):
 
         self.height = height
 
+        # growing took lines out of the scrollback: the view cannot be scrolled back further than what is left
+        self.scrolling_up = min(self.scrolling_up, len(self.scrollback_buffer))
+
         self.reset_scroll()
 
         x, y = self.constrain_coords(x, y)
